@@ -30,10 +30,12 @@ func c07err(err error, srcLen int, what string) {
 		return
 	}
 	v.Reach("C07/error")
-	v.Observe("errtype", v.TypeOf(err))
 	var de errors.DocumentError
 	isDE := stdErrors.As(err, &de)
 	_, isCM := err.(codeMsg)
+	if !isDE && !isCM {
+		v.Observe("errtype", v.TypeOf(err))
+	}
 	v.Assert(isDE || isCM, "C07/unstructured-error/"+what)
 	if pe, ok := err.(jlib.ParsingError); ok {
 		lim := srcLen
@@ -121,7 +123,9 @@ func c07AddType(x []byte) {
 				var de errors.DocumentError
 				isDE := stdErrors.As(cerr, &de)
 				_, isCM := cerr.(codeMsg)
-				v.Observe("errtype", v.TypeOf(cerr))
+				if !isDE && !isCM {
+					v.Observe("errtype", v.TypeOf(cerr))
+				}
 				v.Assert(isDE || isCM, "C07/unstructured-error/addtype.Check")
 				if isDE {
 					v.Assert(int(de.Position()) < c07max(len(x), 1), "C17/added-type-error-position-outside-type-text")
